@@ -592,6 +592,9 @@ pub fn pair_mutations(text: &str) -> Vec<Mutant> {
             out.push(("pair", t2));
         }
     }
+    // the same text is reached along several paths: keep the first occurrence
+    let mut seen2: BTreeSet<u64> = BTreeSet::new();
+    out.retain(|m| seen2.insert(hash64(&m.1)));
     out
 }
 
@@ -904,7 +907,8 @@ fn shrink_case(text: &str, r: &WRes) -> (String, WRes) {
 // ------------------------------------------------------------------ driver
 
 fn process(texts: &[(&'static str, String)], base_order: u64, rep: &Report, budget: &Budget, pending: &mut BTreeMap<String, (u64, String, WRes)>, heavy_later: &mut Option<Vec<(u64, &'static str, String)>>) -> bool {
-    const CHUNK: usize = 400;
+    // small batches keep a dying worker cheap; huge stages amortise process start-up instead
+    let chunk_size: usize = if texts.len() > 100_000 { 2500 } else { 400 };
     // heavy texts run one per worker (thorough: 4 at a time), the others in chunks
     let mut normal: Vec<(usize, &(&'static str, String))> = vec![];
     let mut heavy: Vec<(usize, &(&'static str, String))> = vec![];
@@ -920,8 +924,8 @@ fn process(texts: &[(&'static str, String)], base_order: u64, rep: &Report, budg
     }
     let mut capped = false;
     let mut groups: Vec<Vec<Vec<(usize, &(&'static str, String))>>> = vec![];
-    for g in normal.chunks(CHUNK * 16) {
-        groups.push(g.chunks(CHUNK).map(|c| c.to_vec()).collect());
+    for g in normal.chunks(chunk_size * 16) {
+        groups.push(g.chunks(chunk_size).map(|c| c.to_vec()).collect());
     }
     let heavy_par = if THOROUGH.load(Ordering::Relaxed) { 4 } else { 16 };
     for g in heavy.chunks(heavy_par) {
@@ -1108,6 +1112,28 @@ pub fn run(opts: &Opts, rep: &Report) {
         rep.cap_hit("budget reached during the ill-sorted grammar");
     }
     order += n_grammar as u64;
+    let mut n_heavy = 0usize;
+    let mut n_heavy_run = 0usize;
+    if let Some(hv) = heavy_later.take() {
+        // de-duplicate (pairs repeat many heavy texts), keep the smallest order
+        let mut seen: BTreeSet<u64> = BTreeSet::new();
+        let hv: Vec<(u64, &'static str, String)> = hv.into_iter().filter(|h| seen.insert(hash64(&h.2))).collect();
+        n_heavy = hv.len();
+        let mut none: Option<Vec<(u64, &'static str, String)>> = None;
+        // the heavy stage may use at most 40% of the whole budget
+        let hbudget = Budget::new(opts.budget_s * 0.4);
+        for h in hv.chunks(4) {
+            if budget.exceeded() || hbudget.exceeded() {
+                rep.cap_hit("budget reached during the heavy-width texts");
+                break;
+            }
+            let ms: Vec<Mutant> = h.iter().map(|x| (x.1, x.2.clone())).collect();
+            // orders inside a group of 4: use the first one's order as base (ties are harmless)
+            process(&ms, h[0].0, rep, &budget, &mut pending, &mut none);
+            n_heavy_run += ms.len();
+        }
+    }
+    rep.add("heavy-texts-run", n_heavy_run as u64);
     let mut n_pairs = 0usize;
     if thorough {
         for f in by_size.iter().take(6) {
@@ -1115,33 +1141,16 @@ pub fn run(opts: &Opts, rep: &Report) {
                 rep.cap_hit("budget reached before all pair mutations were generated");
                 break;
             }
-            let pairs = pair_mutations(f);
+            let mut pairs = pair_mutations(f);
+            let before = pairs.len();
+            pairs.retain(|m| !is_heavy(&m.1));
+            rep.add("pair-stage-dropped-heavy-texts", (before - pairs.len()) as u64);
             n_pairs += pairs.len();
-            if !process(&pairs, order, rep, &budget, &mut pending, &mut heavy_later) {
+            let mut none: Option<Vec<(u64, &'static str, String)>> = None;
+            if !process(&pairs, order, rep, &budget, &mut pending, &mut none) {
                 rep.cap_hit("budget reached during pair mutations");
             }
             order += pairs.len() as u64;
-        }
-    }
-    let mut n_heavy = 0usize;
-    if let Some(hv) = heavy_later.take() {
-        // de-duplicate (pairs repeat many heavy texts), keep the smallest order
-        let mut seen: BTreeSet<u64> = BTreeSet::new();
-        let hv: Vec<(u64, &'static str, String)> = hv.into_iter().filter(|h| seen.insert(hash64(&h.2))).collect();
-        n_heavy = hv.len();
-        let mut none: Option<Vec<(u64, &'static str, String)>> = None;
-        for h in hv.chunks(4) {
-            if budget.exceeded() {
-                rep.cap_hit("budget reached during the heavy-width texts");
-                break;
-            }
-            for x in h.iter() {
-                // one group of 4 at a time; orders are kept
-                let _ = x;
-            }
-            let ms: Vec<Mutant> = h.iter().map(|x| (x.1, x.2.clone())).collect();
-            // orders inside a group of 4: use the first one's order as base (ties are harmless)
-            process(&ms, h[0].0, rep, &budget, &mut pending, &mut none);
         }
     }
     rep.note("stages", json!({"corpus": corpus.len(), "single": n_single, "grammar": n_grammar, "pairs": n_pairs, "heavy": n_heavy}));
